@@ -40,7 +40,7 @@ META = {
         technique="runtime monitor: sent-vs-delivered sequence oracle and consumed-byte counter under scripted fragmentation",
     ),
     "C06": dict(
-        text="Exploration: tens of thousands of read histories per run on the real decoder with its real buffer pool, decided by comparing the retained message's serialisation and rendering before and after, plus the race detector on a concurrent re-reader; sampled over layouts and histories.",
+        text="Exploration: tens of thousands of read histories per run on the real decoder with its real buffer pool, decided by comparing the retained message's header fields, serialisation and rendering before and after, plus the race detector on a concurrent re-reader; sampled over layouts and histories.",
         design_ref="DESIGN.md section 4, C06",
         note="Deterministic pool reuse relies on the plain build with GC disabled during a history (under -race sync.Pool drops buffers at random, so the race build is a second, independent oracle).",
         technique="runtime monitor: before/after snapshot oracle across further reads; race detector on a concurrent reader of the retained message",
